@@ -17,8 +17,9 @@ while pending and time.time() - t0 < wait * 60:
     for n in list(pending):
         if ready(n):
             time.sleep(20)      # let the tester finish writing
-            r = subprocess.run('cd /verif && python3 tools/try_seed.py %s --name %s' % (n[:3], n), shell=True, stdout=subprocess.PIPE,
-                               stderr=subprocess.STDOUT, universal_newlines=True)
+            # /repo is patched and restored per seed: one seed at a time across all queues
+            r = subprocess.run('cd /verif && flock /verif/.work/repo.lock python3 tools/try_seed.py %s --name %s' % (n[:3], n), shell=True,
+                               stdout=subprocess.PIPE, stderr=subprocess.STDOUT, universal_newlines=True)
             lines = [l.strip() for l in r.stdout.splitlines() if 'summary' in l or 'confirmed' in l.lower() or 'APPLY' in l]
             log.write('%s | %s\n' % (n, ' | '.join(lines)[:600])); log.flush()
             pending.remove(n)
